@@ -194,7 +194,7 @@ def check_relabel(X, spec, out, stats):
             out.append(("relabel", f"convert_labels_to_integers(in_place=True, label_attribute={la!r}) differs from in_place=False"))
 
 
-def check_sub_dual_etc(H, spec, out, stats):
+def check_sub_dual_etc(H, spec, out, stats, allow_inplace=True):
     import xgi
 
     M = model(H)
@@ -265,7 +265,7 @@ def check_sub_dual_etc(H, spec, out, stats):
     if nodes:
         comps = components(nodes, mem)
         best = max(len(c) for c in comps)
-        for in_place in (False, True):
+        for in_place in ((False, True) if allow_inplace else (False,)):
             stats["n"] += 1
             G = F.build(spec) if in_place else H
             R = xgi.largest_connected_hypergraph(G, in_place=in_place)
@@ -395,6 +395,13 @@ def _work(item):
                     check_cleanup_h(X, spec, out, stats)
                     check_relabel(X, spec, out, stats)
                     check_sub_dual_etc(X, spec, out, stats)
+                    # the same object again after in-place edits (another history, other members, one more edge)
+                    F.detour(X)
+                    F.morph(X)
+                    F.grow(X)
+                    k = len(out)
+                    check_sub_dual_etc(X, spec, out, stats, allow_inplace=False)
+                    out[k:] = [(m, "[same object re-evaluated after in-place edits] " + msg) for m, msg in out[k:]]
                 elif kind == "S":
                     check_complex(X, spec, out, stats)
                     check_relabel(X, spec, out, stats)
